@@ -884,7 +884,7 @@ func TestVerifC09(t *testing.T) {
 	// 2. generated histories; the same history is run on the in-memory book and
 	// on datastore-backed books (cache off / on, both GC modes)
 	r := verifh.NewRand(verifh.Seed())
-	nHist := 700
+	nHist := 2200
 	if thorough {
 		nHist = 9000
 	}
@@ -940,7 +940,7 @@ func TestVerifC09(t *testing.T) {
 
 	// 3. reopen after every prefix (datastore-backed book): the history with a
 	// close/reopen inserted after op k, for every k (thorough) / every 3rd k (quick)
-	nRe := 25
+	nRe := 50
 	if thorough {
 		nRe = 150
 	}
